@@ -72,4 +72,26 @@ example : wellTyped "[%s] should be [%ld] but was [%ld]\n".toList [.cstr, .long,
 example : wellTyped "[%s] should be [%d] but was [%d]\n".toList [.cstr, .long, .long] = false := by decide
 example : wellTyped "\n\t\tactual value:\t\t\t[0x%lx]".toList [.long] = true := by decide
 
+/-! ### The message buffer is large enough (the terms of the size are re-extracted from the C on every run, see
+`message_size_covers` in the generated file) -/
+
+/-- The size `literal_failure_message_for()` allocates: the lengths of the four fixed templates it adds up
+(`fixedLen`), of the constraint's two value templates, of the three texts it is given, its slack, and — for
+string constraints — of the two strings. -/
+def messageSize (fixedLen aTmplLen eTmplLen nameLen expectedTextLen actualTextLen slack stringsLen : Nat) : Nat :=
+  fixedLen + aTmplLen + eTmplLen + expectedTextLen + nameLen + actualTextLen + slack + stringsLen
+
+/-- The allocated size is enough for the literal message and its terminator, for all texts and values: the
+templates are at least as long as what they print around their conversions, and a value that is not a string
+the size accounts for is at most `vmax` characters (a decimal or hexadecimal `intptr_t`), twice within the slack. -/
+theorem C10_buffer_suffices (f1 f2 f3 : Bool) (t : Tmpl) (name aText eText aVal eVal : Str)
+    (fixedLen aTmplLen eTmplLen slack aStr eStr vmax : Nat)
+    (hfixed : tExpected.length + tTo.length + tClose.length + tOpen.length + tClose.length + tNl.length ≤ fixedLen)
+    (ha : t.aLabel.length + t.aClose.length ≤ aTmplLen) (he : t.eLabel.length + t.eClose.length ≤ eTmplLen)
+    (hav : aVal.length ≤ vmax + aStr) (hev : eVal.length ≤ vmax + eStr) (hslack : 2 * vmax + 2 ≤ slack) :
+    (literalMessage f1 f2 f3 t name aText eText aVal eVal).length + 2
+      ≤ messageSize fixedLen aTmplLen eTmplLen name.length eText.length aText.length slack (aStr + eStr) := by
+  unfold literalMessage messageSize
+  cases f1 <;> cases f2 <;> cases f3 <;> simp only [List.length_append, if_true, if_false, Bool.false_eq_true, List.length_nil] <;> omega
+
 end Cgreen
